@@ -99,3 +99,9 @@ Print Assumptions C12_source_version_negotiation.
 Theorem C12_source_size_checked_against_msize : V9.Shape.ShapeLib.size_checked_against_msize = true.
 Proof. exact V9.Shape.PRecv.size_checked_against_msize_ok. Qed.
 Print Assumptions C12_source_size_checked_against_msize.
+
+(* a Tversion cancels every outstanding request, the waiting members of shared-tag groups included, before it is
+   answered: nothing sized or encoded for the previous msize and dialect is sent after the Rversion (rule LV1 of Srv/Conc.v) *)
+Theorem C12_source_version_cancels_whole_groups : ShapeLib.version_cancels_whole_groups = true.
+Proof. exact PVersion.version_cancels_whole_groups_ok. Qed.
+Print Assumptions C12_source_version_cancels_whole_groups.
